@@ -46,28 +46,40 @@ UpSeq(s)  == [i \in 1..Len(s) |-> UpChar(s[i])]
 MapChar(c) == IF IsD1(UpChar(c)) THEN UpChar(c) ELSE 95
 MapSeq(s)  == [i \in 1..Len(s) |-> MapChar(s[i])]
 
-\* utils.truncate_basename
+\* utils.truncate_basename: basename[:maxlen].upper()[:maxlen], then every non-d-character
+\* becomes "_" (the second truncation is the identity on this pool: upper-casing is 1:1 here)
 TruncBase(b, lvl, isdir) ==
     IF lvl = 4 THEN b
-    ELSE MapSeq(Take(b, IF lvl = 1 THEN 8 ELSE IF isdir THEN 31 ELSE 30))
+    ELSE LET m == IF lvl = 1 THEN 8 ELSE IF isdir THEN 31 ELSE 30
+         IN MapSeq(Take(UpSeq(Take(b, m)), m))
 
-\* utils.mangle_file_for_iso9660: [name, ext]; ext carries ";1" below level 4
-MangleFile(orig, lvl) ==
-    LET dot == LastIndexOf(orig, DOT)
+\* orig.replace(';', '_') (level 4: anything but the separator of the version number)
+NoSemi(s) == [i \in 1..Len(s) |-> IF s[i] = SEMI THEN 95 ELSE s[i]]
+
+\* utils.mangle_file_for_iso9660: [name, ext]; ext carries ";1" below level 4.
+\*  level 4: ';' replaced, split at the last dot.
+\*  levels 1-3: the extension is kept iff it has 1..3 characters, all d-characters once raised
+\*  (and still at most 3 then); otherwise it stays part of the name.  The name goes through
+\*  truncate_basename and, at levels 2 and 3, is cut to 30 - len(extension) (ECMA-119 7.5.2).
+MangleFile(orig0, lvl) ==
+    LET orig == IF lvl = 4 THEN NoSemi(orig0) ELSE orig0
+        dot == LastIndexOf(orig, DOT)
         ext == IF dot = 0 THEN <<>> ELSE SubSeq(orig, dot + 1, Len(orig))
         pre == IF dot = 0 THEN orig ELSE SubSeq(orig, 1, dot - 1)
     IN  IF lvl = 4
         THEN (IF dot = 0 THEN [name |-> orig, ext |-> <<>>] ELSE [name |-> pre, ext |-> ext])
-        ELSE IF dot = 0 \/ Len(ext) = 0 \/ Len(ext) > 3 \/ ~AllD1(UpSeq(ext))
-             THEN [name |-> TruncBase(orig, lvl, FALSE), ext |-> <<SEMI, 49>>]
-             ELSE [name |-> TruncBase(pre, lvl, FALSE), ext |-> UpSeq(ext) \o <<SEMI, 49>>]
+        ELSE LET keep == dot # 0 /\ Len(ext) # 0 /\ Len(ext) <= 3 /\ AllD1(UpSeq(ext)) /\ Len(UpSeq(ext)) <= 3
+                 vext == IF keep THEN UpSeq(ext) ELSE <<>>
+                 vb   == TruncBase(IF keep THEN pre ELSE orig, lvl, FALSE)
+             IN [name |-> IF lvl \in {2, 3} THEN Take(vb, 30 - Len(vext)) ELSE vb,
+                 ext  |-> vext \o <<SEMI, 49>>]
 
 JoinFile(m) == IF m.ext = <<>> THEN m.name ELSE m.name \o <<DOT>> \o m.ext
 MangleDir(orig, lvl) == TruncBase(orig, lvl, TRUE)
 Mangled(orig, isdir, lvl) == IF isdir THEN MangleDir(orig, lvl) ELSE JoinFile(MangleFile(orig, lvl))
 
 \* build_iso_path: the first use of a mangled identifier keeps it; a later one is replaced by
-\* (first five characters of the mangled identifier) (three digits from 000) ["." ext for files]
+\* (first five characters of its name part) (three digits from 000) ["." ext for files]
 Digits3(n) == <<48 + (n \div 100), 48 + ((n \div 10) % 10), 48 + (n % 10)>>
 RECURSIVE FreeNumbered(_, _, _, _, _)
 FreeNumbered(prefix, ext, isdir, used, n) ==
@@ -75,9 +87,10 @@ FreeNumbered(prefix, ext, isdir, used, n) ==
     ELSE LET tmp == prefix \o Digits3(n) \o (IF isdir THEN <<>> ELSE <<DOT>> \o ext)
          IN IF tmp \in used THEN FreeNumbered(prefix, ext, isdir, used, n + 1) ELSE tmp
 
-\* (the repaired scheme of proposed_fixes/genisoimage-collision-prefix.diff takes the prefix from
-\*  the name part: NumberingPrefix == Take(IF isdir THEN fm ELSE MangleFile(orig, lvl).name, 5))
-NumberingPrefix(orig, isdir, lvl, fm) == Take(fm, 5)
+\* prefix = basepart[:5]: the first five characters of the NAME PART (the mangled directory
+\* identifier, or the file name without extension and version) - never of the joined identifier,
+\* whose '.' and ';' would otherwise get into the prefix of a name part shorter than five.
+NumberingPrefix(orig, isdir, lvl, fm) == Take(IF isdir THEN fm ELSE MangleFile(orig, lvl).name, 5)
 IdentFor(orig, isdir, lvl, used) ==
     LET fm == Mangled(orig, isdir, lvl)
     IN IF fm \in used
@@ -103,7 +116,8 @@ DistinctLegal(sibs, ids, lvl) ==
     /\ \A i, j \in 1..Len(ids) : i < j => ids[i] # ids[j]
     /\ \A i \in 1..Len(ids) : IdentLegal(ids[i], sibs[i].d, lvl)
 
-\* why a numbered identifier is illegal: the five-character prefix reaches into the separators
+\* circumstance (used in signatures): the name part is shorter than five characters - a
+\* five-character prefix cut from the joined identifier would reach into the separators
 PrefixSpansSeparator(orig, isdir, lvl) ==
     ~isdir /\ lvl < 4 /\ Len(MangleFile(orig, lvl).name) < 5
 
@@ -122,13 +136,20 @@ Requested(V, O) == CASE V = "rr" -> O.rock # "none" [] V = "joliet" -> O.joliet
 Excluded(e, O) == O.fk = "x" /\ \E i \in 1..Len(e.p) : Matches(e.p[i], O.fpat)
 Src(T, O) == {e \in T : ~Excluded(e, O)}
 
+\* man page: "symbolic links will be entered using Rock Ridge if enabled, otherwise they will be
+\* ignored"; "-udf-symlinks  Support symlinks in UDF filesystems. This is the default."  A link is
+\* kept when Rock Ridge or UDF was asked for (under either spelling, -R / -r, -udf / -UDF) and
+\* ignored - absent from every view - otherwise.
+SymlinksKept(O) == O.rock # "none" \/ O.udf # "none"
+LinkIgnored(e, O) == e.k = "symlink" /\ ~SymlinksKept(O)
+
 \* -hide: "Hide ISO9660/RR file", -hide-joliet, -hide-udf (regular files, by their own name)
 HiddenIn(V, e, O) ==
     /\ e.k = "file" /\ Matches(Last(e.p), O.fpat)
     /\ \/ O.fk = "hide"  /\ V \in {"iso", "rr"}
        \/ O.fk = "hidej" /\ V = "joliet"
        \/ O.fk = "hideu" /\ V = "udf"
-Expected(V, T, O) == {e \in Src(T, O) : ~HiddenIn(V, e, O)}
+Expected(V, T, O) == {e \in Src(T, O) : ~HiddenIn(V, e, O) /\ ~LinkIgnored(e, O)}
 
 \* "With all ISO9660 levels from 1 to 3 ... directory nesting is limited to 8 levels" (root is
 \* level 1); pycdlib documents and enforces "Directory levels too deep (maximum is 7)" for every
@@ -138,11 +159,10 @@ Expected(V, T, O) == {e \in Src(T, O) : ~HiddenIn(V, e, O)}
 TooDeep(e, O) == O.rock = "none" /\ O.level < 4 /\ Len(e.p) > 7
 Relocated(T, O) == O.rock # "none" /\ \E e \in Src(T, O) : e.k = "dir" /\ Len(e.p) > 7
 
-\* man page: "symbolic links will be entered using Rock Ridge if enabled, otherwise ... ignored";
-\* "-udf-symlinks  Create symbolic links on UDF image (default)".  Joliet cannot hold a link and
-\* nothing says what the Joliet tree shows instead: silent (absent, or an empty file).
-SymlinksKept(O) == O.rock # "none" \/ O.udf # "none"
-Silent(V, e, O) == TooDeep(e, O) \/ (e.k = "symlink" /\ V \in {"joliet", "iso"})
+\* A kept link is entered in the Rock Ridge and in the UDF view as a link.  Joliet cannot hold a
+\* link and nothing says what the Joliet tree shows instead: silent (absent, or an empty file).
+\* (The plain ISO9660 view is not judged by ExtractEqualsTree: see IsoOnce.)
+Silent(V, e, O) == TooDeep(e, O) \/ (e.k = "symlink" /\ V = "joliet")
 Rendition(s, x) == x = s \/ (s.k = "symlink" /\ x = [p |-> s.p, k |-> "file", c |-> "E", t |-> <<>>])
 
 RrMoved == <<114, 114, 95, 109, 111, 118, 101, 100>>    \* "rr_moved" (man page: cannot be hidden)
@@ -197,9 +217,11 @@ IsoDistinct(ob) ==
     /\ \A i, j \in DOMAIN ob.isolist :
           i < j => <<ob.isolist[i].d, ob.isolist[i].n>> # <<ob.isolist[j].d, ob.isolist[j].n>>
 \* every source file (and directory) exactly once: the ISO9660 tree is the source tree up to
-\* renaming.  Links are silent in this view: shown as links (Rock Ridge), as empty files (UDF
-\* only, pycdlib's documented add_symlink behaviour) or not at all.  With relocation the
-\* hierarchy differs by design (RR_MOVED): every content exactly once anywhere.
+\* renaming.  Links: with Rock Ridge they are "entered using Rock Ridge", i.e. each is in the
+\* ISO9660 tree once, as a link with its target; with UDF only the documents do not say what the
+\* ISO9660 tree shows (silent: empty files - pycdlib's documented add_symlink behaviour - or
+\* nothing); with neither they are ignored (not in Expected).  With relocation the hierarchy
+\* differs by design (RR_MOVED): every content exactly once anywhere.
 IsoOnce(T, O, ob) ==
     LET X   == IsoCore(O, ob)
         E   == ExpIso(T, O)
@@ -207,6 +229,7 @@ IsoOnce(T, O, ob) ==
         En  == {e \in E : e.k # "symlink"}
         Ee  == En \cup {[p |-> e.p, k |-> "file", c |-> "E", t |-> <<>>] : e \in {f \in E : f.k = "symlink"}}
     IN IF Relocated(T, O) THEN FlatFilesEq(Xn, En)
+       ELSE IF O.rock # "none" THEN SameKids(X, <<>>, E, <<>>)
        ELSE /\ SameKids(Xn, <<>>, En, <<>>) \/ SameKids(Xn, <<>>, Ee, <<>>)
             /\ \A x \in X : x.k = "symlink" => \E e \in E : e.k = "symlink" /\ e.t = x.t
 PlainViewOnceLegalDistinct(T, O, ob) ==
